@@ -10,6 +10,32 @@ is a theorem re-checked on every run.
 namespace Prom.C13
 open Prom Prom.Pb
 
+def kindCompat : FKind → FKind → Bool
+  | .str, .str | .double, .double | .uint64, .uint64 | .int64, .int64 => true
+  | .enum _, .enum _ => true
+  | .msg a, .msg b => a == b
+  | _, _ => false
+
+def sizeOk (w : WField) : Bool :=
+  match w.kind, w.size with
+  | .str, .tagLenBytes | .msg _, .tagLenBytes | .double, .tagFixed64 => true
+  | .uint64, .tagVarint | .int64, .tagVarint | .enum _, .tagVarint => true
+  | _, _ => false
+
+/-- every message the code writes is declared; every written field is declared with the same
+    name, number, repetition and a compatible type; every declared field is written; field
+    numbers are pairwise distinct (on both sides) and within protobuf's range 1 ‥ 2^29-1; the size rule of `compute_size` matches the wire kind -/
+def Compatible (wt : List (String × List WField)) (sch : List (String × List SField)) : Bool :=
+  wt.length == sch.length &&
+  wt.all fun (name, wfs) =>
+    match lookupMsg sch name with
+    | none => false
+    | some sfs =>
+      wfs.length == sfs.length &&
+      (wfs.map (·.num)).Nodup && (sfs.map (·.num)).Nodup &&
+      wfs.all (fun w => sizeOk w && decide (0 < w.num) && decide (w.num < 536870912) && sfs.any fun s => s.name == w.name && s.num == w.num && s.repeated == w.repeated && kindCompat w.kind s.kind) &&
+      sfs.all (fun s => wfs.any fun w => s.name == w.name && s.num == w.num)
+
 theorem toUInt8_toNat (n : Nat) (h : n < 256) : n.toUInt8.toNat = n := by
   show (UInt8.ofNat n).toNat = n
   rw [UInt8.toNat_ofNat']
